@@ -62,3 +62,261 @@ Proof.
     + intros k. autorewrite with iv. destruct (N.eqb k inp) eqn:E; auto. apply N.eqb_eq in E. now subst.
     + intros t. now apply asum_rules_mod_ri_same.
 Qed.
+
+(* a dummy request (build key, discovered dependency) is done once its rule has been demanded *)
+Lemma Inv_drop_dummy rules c s rq fi' : cx_fi c = rq :: fi' -> iq_task rq = None -> Inv rules c s -> Inv rules (cx_set_fi c fi') s.
+Proof.
+  intros Hfi Hd (Hn & HT & HI & HS). split; auto. split; [now apply (InvT_ctx c)|]. split; [|now apply (InvS_ctx c)].
+  destruct HI as [B1 B2 B3 B4 B5 B6 B7 B8 B9 B10]. rewrite Hfi in *. inversion B2 as [|x l Hrq Hl]. subst x l.
+  constructor; cbn [cx_fi cx_set_fi]; auto.
+  intros t ti Hg. rewrite (B1 t ti Hg), cnt_i_cons. unfold for_task. rewrite Hd. lia.
+Qed.
+
+(* the rule of a task in progress records a dependency *)
+Lemma Inv_record_dep rules c s t d : is_in_progress s t = true -> Inv rules c s -> Inv rules c (mod_ri s t (ri_add_dep d)).
+Proof.
+  intros Hip (Hn & HT & HI & HS).
+  assert (HK : forall k, kind_of (mod_ri s t (ri_add_dep d)) k = kind_of s k).
+  { intros k. rewrite kind_of_mod_ri. destruct (N.eqb k t) eqn:E; auto. apply N.eqb_eq in E. now subst. }
+  assert (Hns : kind_of s t <> KScanning). { apply in_progress_iff in Hip. destruct Hip as [H|H]; rewrite H; discriminate. }
+  split; [now apply nf_mod_ri|]. split; [|split].
+  - apply (InvT_frame c s); auto. apply nodup_rules_set_ri, HT.
+  - apply (InvI_frame rules c s); auto.
+    + intros k. autorewrite with iv. destruct (N.eqb k t) eqn:E; auto. apply N.eqb_eq in E. now subst.
+    + intros t0. now apply asum_rules_mod_ri_same.
+  - apply (InvS_frame c s); auto.
+    + intros k Hk. rewrite res_of_mod_ri. destruct (N.eqb k t) eqn:E; auto. apply N.eqb_eq in E. subst. contradiction.
+    + intros k. autorewrite with iv. destruct (N.eqb k t) eqn:E; auto. apply N.eqb_eq in E. now subst.
+    + intros t0. now apply asum_rules_mod_ri_same.
+Qed.
+
+Lemma InvI_to_fininreq rules c s rq fi' : cx_fi c = rq :: fi' -> iq_task rq <> None ->
+  InvI rules c s -> InvI rules (cx_set_fi c fi') (upd_fininreq s (rq :: is_fininreq s)).
+Proof.
+  intros Hfi Hnd [B1 B2 B3 B4 B5 B6 B7 B8 B9 B10]. rewrite Hfi in *. inversion B2 as [|x l Hrq Hl]. subst x l.
+  constructor; cbn [cx_fi cx_set_fi]; autorewrite with iv; auto.
+  - intros t ti Hg. rewrite (B1 t ti Hg). unfold outstanding_count. autorewrite with iv. rewrite !cnt_i_cons. lia.
+  - intros x [Hx|Hx]; [now subst|auto].
+Qed.
+
+Lemma InvI_to_reqby rules c s inp ti rq fi' : cx_fi c = rq :: fi' -> aget (is_tasks s) inp = Some ti -> iq_input rq = inp -> iq_task rq <> None ->
+  InvI rules c s -> InvI rules (cx_set_fi c fi') (set_ti s inp (ti_add_reqby rq ti)).
+Proof.
+  intros Hfi Hg Hin Hnd [B1 B2 B3 B4 B5 B6 B7 B8 B9 B10]. rewrite Hfi in *. inversion B2 as [|x l Hrq Hl]. subst x l.
+  assert (Hok : forall x, ireq_ok rules s x -> ireq_ok rules (set_ti s inp (ti_add_reqby rq ti)) x) by (intros; eapply ireq_ok_set_ti; eauto).
+  constructor; cbn [cx_fi cx_set_fi]; autorewrite with iv.
+  - intros t x Hx. pose proof (outstanding_count_set_ti s inp ti (ti_add_reqby rq ti) t Hg) as Ho.
+    cbn [ti_add_reqby ti_with_reqby ti_reqby] in Ho. rewrite cnt_i_app, cnt_i_cons, cnt_i_nil in Ho.
+    rewrite aget_aset in Hx. destruct (N.eqb t inp) eqn:E.
+    + apply N.eqb_eq in E. subst t. inversion Hx. subst x. cbn [ti_add_reqby ti_with_reqby ti_wait]. rewrite (B1 inp ti Hg), cnt_i_cons. lia.
+    + rewrite (B1 t x Hx), cnt_i_cons. lia.
+  - eapply Forall_impl; [apply Hok|auto].
+  - eapply Forall_impl; [apply Hok|auto].
+  - intros k. eapply Forall_impl; [apply Hok|apply B4].
+  - intros t x. rewrite aget_aset. destruct (N.eqb t inp) eqn:E; intros Hx.
+    + inversion Hx. subst x. cbn [ti_add_reqby ti_with_reqby ti_reqby]. apply Forall_app. split; [eapply Forall_impl; [apply Hok|eauto]|constructor; auto].
+    + eapply Forall_impl; [apply Hok|eauto].
+  - eapply Forall_impl; [apply Hok|auto].
+  - exact B7.
+  - exact B8.
+  - intros t x y. rewrite aget_aset. destruct (N.eqb t inp) eqn:E; intros Hx.
+    + apply N.eqb_eq in E. inversion Hx. subst x t. cbn [ti_add_reqby ti_with_reqby ti_reqby]. intros Hy.
+      apply in_app_or in Hy. destruct Hy as [Hy|[Hy|[]]]; [eapply B9; eauto|subst y; auto].
+    + eapply B9; eauto.
+  - exact B10.
+Qed.
+
+Lemma Inv_route_request rules c s t rq avail fi' : cx_fi c = rq :: fi' -> iq_task rq = Some t ->
+  (avail = false -> aget (is_tasks s) (iq_input rq) <> None) -> Inv rules c s -> Inv rules (cx_set_fi c fi') (route_request s t rq avail).
+Proof.
+  intros Hfi Ht Hav HI. pose proof (Inv_head_fi_ok rules c s rq fi' Hfi HI) as Hrq. destruct (Hrq t Ht) as [Hex _].
+  assert (Hip : is_in_progress s t = true) by (destruct HI as (_ & HT & _); now apply (t_tk c s HT)).
+  unfold route_request. cbn zeta.
+  apply (Inv_record_dep rules c s t (mkDep (iq_input rq) (iq_order rq) (iq_single rq)) Hip) in HI.
+  set (s1 := mod_ri s t (ri_add_dep _)) in *. destruct HI as (Hn & HT & HI & HS).
+  assert (Hnd : iq_task rq <> None) by (rewrite Ht; discriminate).
+  destruct avail.
+  - split; [unfold nf; now autorewrite with iv|]. split; [|split].
+    + apply (InvT_ctx c); auto. now apply InvT_upd_fininreq.
+    + now apply InvI_to_fininreq.
+    + apply (InvS_ctx c); auto. now apply InvS_upd_fininreq.
+  - specialize (Hav eq_refl). change (is_tasks s) with (is_tasks s1) in Hav. destruct (aget (is_tasks s1) (iq_input rq)) as [ti|] eqn:Hg; [|contradiction].
+    rewrite (mod_ti_some _ _ _ _ Hg). split; [now apply nf_set_ti|]. split; [|split].
+    + apply (InvT_ctx c); auto. eapply InvT_set_ti; eauto.
+    + eapply InvI_to_reqby; eauto.
+    + apply (InvS_ctx c); auto. eapply InvS_set_ti; eauto.
+Qed.
+
+Lemma Inv_process_input_request rules env ord c0 fi' s rq : cx_ex c0 = None -> Inv rules (cx_set_fi c0 (rq :: fi')) s ->
+  Inv rules (cx_set_fi c0 fi') (process_input_request rules env ord s rq).
+Proof.
+  intros Hex HI. unfold process_input_request. set (c := cx_set_fi c0 (rq :: fi')) in *.
+  destruct (scan_rule rules env s (iq_input rq)) as [b1 s1] eqn:E1.
+  destruct (scan_rule_post rules env c _ _ _ _ E1 HI) as (HI1 & KS & Hf1 & Ht1).
+  destruct b1.
+  2:{ apply (Inv_pause_on_rule rules c s1 (iq_input rq) rq fi'); auto. }
+  destruct (demand_rule rules ord s1 (iq_input rq)) as [b2 s2] eqn:E2.
+  destruct (demand_rule_post rules ord c _ _ _ _ E2 HI1 Hex (Ht1 eq_refl)) as (HI2 & KD & Hf2 & Ht2).
+  destruct (iq_task rq) as [t|] eqn:Et.
+  - apply (Inv_route_request rules c s2 t rq b2 fi'); auto.
+  - apply (Inv_drop_dummy rules c s2 rq fi'); auto.
+Qed.
+
+Lemma Inv_step_inreq rules env ord c s : cx_ex c = None -> Inv rules c s -> Inv rules c (step_inreq rules env ord s).
+Proof.
+  intros Hex HI. unfold step_inreq. destruct (is_inreq s) as [|rq rest] eqn:Hq; auto.
+  pose proof (Inv_pop_inreq rules c s rq rest Hq HI) as HI1.
+  pose proof (Inv_process_input_request rules env ord c (cx_fi c) (upd_inreq s rest) rq Hex HI1) as H. now rewrite cx_set_fi_same in H.
+Qed.
+
+(* ---------- one finished input request ---------- *)
+Lemma Inv_pop_fininreq rules c s rq rest : is_fininreq s = rq :: rest -> Inv rules c s -> Inv rules (cx_set_fi c (rq :: cx_fi c)) (upd_fininreq s rest).
+Proof.
+  intros Hq (Hn & HT & HI & HS). split; [exact Hn|]. split; [|split].
+  - apply (InvT_ctx c); auto. now apply InvT_upd_fininreq.
+  - destruct HI as [B1 B2 B3 B4 B5 B6 B7 B8 B9 B10]. rewrite Hq in *. inversion B6 as [|x l Hx Hl]. subst x l.
+    constructor; cbn [cx_fi cx_set_fi]; autorewrite with iv; auto.
+    + intros t ti Hg. rewrite (B1 t ti Hg). unfold outstanding_count. rewrite Hq. autorewrite with iv. rewrite !cnt_i_cons. lia.
+    + intros x Hx'. apply B10. now right.
+  - apply (InvS_ctx c); auto. now apply InvS_upd_fininreq.
+Qed.
+
+(* a task with an outstanding request is InProgressWaiting and not queued as ready *)
+Lemma waiting_of_request rules c s t rq fi' : cx_fi c = rq :: fi' -> iq_task rq = Some t -> Inv rules c s ->
+  exists ti, aget (is_tasks s) t = Some ti /\ (0 < ti_wait ti)%nat /\ kind_of s t = KWaiting /\ ~ In t (is_ready s).
+Proof.
+  intros Hfi Ht HI. pose proof (Inv_head_fi_ok rules c s rq fi' Hfi HI) as Hrq. destruct (Hrq t Ht) as [Hex _].
+  destruct HI as (_ & HT & HI & _). destruct (aget (is_tasks s) t) as [ti|] eqn:Hg; [|contradiction]. exists ti.
+  assert (Hw : (0 < ti_wait ti)%nat).
+  { rewrite (i_wc rules c s HI t ti Hg), Hfi, cnt_i_cons. unfold for_task. rewrite Ht, N.eqb_refl. lia. }
+  assert (Hip : is_in_progress s t = true) by (apply (t_tk c s HT); congruence).
+  apply in_progress_iff in Hip. repeat split; auto.
+  - destruct Hip as [H|H]; auto. pose proof (t_cw c s HT t ti Hg H). lia.
+  - intros Hin. destruct (t_rd1 c s HT t Hin) as (x & Hx & _ & Hw0). rewrite Hg in Hx. inversion Hx. subst. lia.
+Qed.
+
+Lemma InvI_decrement rules c s t ti n rq fi' : cx_fi c = rq :: fi' -> iq_task rq = Some t -> aget (is_tasks s) t = Some ti -> ti_wait ti = S n ->
+  InvI rules c s -> InvI rules (cx_set_fi c fi') (set_ti s t (ti_with_wait n ti)).
+Proof.
+  intros Hfi Ht Hg Hw [B1 B2 B3 B4 B5 B6 B7 B8 B9 B10]. rewrite Hfi in *. inversion B2 as [|x l Hrq Hl]. subst x l.
+  assert (Hok : forall x, ireq_ok rules s x -> ireq_ok rules (set_ti s t (ti_with_wait n ti)) x) by (intros; eapply ireq_ok_set_ti; eauto).
+  constructor; cbn [cx_fi cx_set_fi]; autorewrite with iv.
+  - intros t' x Hx. pose proof (outstanding_count_set_ti s t ti (ti_with_wait n ti) t' Hg) as Ho. cbn [ti_with_wait ti_reqby] in Ho.
+    rewrite aget_aset in Hx. destruct (N.eqb t' t) eqn:E.
+    + apply N.eqb_eq in E. subst t'. inversion Hx. subst x. cbn [ti_with_wait ti_wait]. pose proof (B1 t ti Hg) as Hb. rewrite cnt_i_cons in Hb.
+      unfold for_task in Hb. rewrite Ht, N.eqb_refl in Hb. lia.
+    + pose proof (B1 t' x Hx) as Hb. rewrite cnt_i_cons in Hb. unfold for_task in Hb. rewrite Ht, E in Hb. lia.
+  - eapply Forall_impl; [apply Hok|auto].
+  - eapply Forall_impl; [apply Hok|auto].
+  - intros k. eapply Forall_impl; [apply Hok|apply B4].
+  - intros t' x. rewrite aget_aset. destruct (N.eqb t' t) eqn:E; intros Hx.
+    + inversion Hx. subst x. cbn [ti_with_wait ti_reqby]. eapply Forall_impl; [apply Hok|eauto].
+    + eapply Forall_impl; [apply Hok|eauto].
+  - eapply Forall_impl; [apply Hok|auto].
+  - exact B7.
+  - exact B8.
+  - intros t' x y. rewrite aget_aset. destruct (N.eqb t' t) eqn:E; intros Hx.
+    + apply N.eqb_eq in E. inversion Hx. subst x t'. cbn [ti_with_wait ti_reqby]. now apply B9.
+    + now apply B9.
+  - exact B10.
+Qed.
+
+(* the last outstanding request of a waiting task is delivered: waitCount 0, queued as ready *)
+Lemma InvT_ready_zero c s t ti : aget (is_tasks s) t = Some ti -> kind_of s t = KWaiting -> ~ In t (is_ready s) ->
+  InvT c s -> InvT c (upd_ready (set_ti s t (ti_with_wait 0 ti)) (is_ready s ++ [t])).
+Proof.
+  intros Hg Hk Hnr [A1 A2 A3 A4 A5 A6 A7 A8 A9 A10 A11].
+  constructor; autorewrite with iv; auto.
+  - now apply nodup_aset.
+  - now apply nodup_snoc.
+  - intros t'. rewrite (aget_aset_exists _ _ _ _ _ Hg). apply A5.
+  - intros t' x. rewrite aget_aset. destruct (N.eqb t' t) eqn:E; [|apply A6]. intros Hx _. inversion Hx. reflexivity.
+  - intros t' Hin. rewrite aget_aset. apply in_app_or in Hin. destruct (N.eqb t' t) eqn:E.
+    + apply N.eqb_eq in E. subst t'. exists (ti_with_wait 0 ti). auto.
+    + destruct Hin as [Hin|[Hin|[]]]; [now apply A7|]. subst t'. rewrite N.eqb_refl in E. discriminate.
+  - intros t' x. rewrite aget_aset. destruct (N.eqb t' t) eqn:E.
+    + apply N.eqb_eq in E. subst t'. intros _ _ _. left. apply in_or_app. right. now left.
+    + intros Hx Hkk Hw. destruct (A8 t' x Hx Hkk Hw) as [H|H]; [left; apply in_or_app; now left|now right].
+  - intros t' Hin. destruct (A9 t' Hin) as (x & Hx & Hkk & Hp). rewrite aget_aset. destruct (N.eqb t' t) eqn:E; [|eauto].
+    apply N.eqb_eq in E. subst t'. congruence.
+  - intros t' x. rewrite aget_aset. destruct (N.eqb t' t) eqn:E; [|apply A10].
+    apply N.eqb_eq in E. subst t'. intros Hx. inversion Hx. subst x. cbn [ti_with_wait ti_pending]. now apply A10.
+  - rewrite A11. unfold n_computing. autorewrite with iv. symmetry.
+    apply (filter_keys_aset (fun k => kind_eqb (kind_of s k) KComputing) (is_tasks s) t ti _ Hg).
+Qed.
+
+Lemma Inv_decrement_wait rules c s t rq fi' : cx_fi c = rq :: fi' -> iq_task rq = Some t -> Inv rules c s ->
+  Inv rules (cx_set_fi c fi') (decrement_wait s t).
+Proof.
+  intros Hfi Ht HI. destruct (waiting_of_request rules c s t rq fi' Hfi Ht HI) as (ti & Hg & Hw & Hk & Hnr).
+  destruct HI as (Hn & HT & HI & HS). unfold decrement_wait. rewrite Hg. destruct (ti_wait ti) as [|n] eqn:Ew; [lia|]. cbn zeta.
+  pose proof (InvI_decrement rules c s t ti n rq fi' Hfi Ht Hg Ew HI) as HI'.
+  assert (HS' : InvS (cx_set_fi c fi') (set_ti s t (ti_with_wait n ti))) by (apply (InvS_ctx c); auto; eapply InvS_set_ti; eauto).
+  destruct (Nat.eqb n 0) eqn:En.
+  - apply Nat.eqb_eq in En. subst n. split; [unfold nf; now autorewrite with iv|]. split; [|split].
+    + apply (InvT_ctx c); auto. change (is_ready (set_ti s t (ti_with_wait 0 ti))) with (is_ready s). now apply InvT_ready_zero.
+    + now apply InvI_upd_ready.
+    + now apply InvS_upd_ready.
+  - apply Nat.eqb_neq in En. split; [now apply nf_set_ti|]. split; [|split]; auto.
+    apply (InvT_ctx c); auto. apply InvT_set_wait; auto.
+Qed.
+
+Lemma store_slot_fields slot v ti :
+  ti_wait (store_slot slot v ti) = ti_wait ti /\ ti_pending (store_slot slot v ti) = ti_pending ti /\
+  ti_reqby (store_slot slot v ti) = ti_reqby ti /\ ti_deferred (store_slot slot v ti) = ti_deferred ti.
+Proof. unfold store_slot. destruct (Nat.ltb _ _); repeat split; reflexivity. Qed.
+
+Lemma Inv_branch_reqs rules c ks : forall s t,
+  Inv rules c s -> aget (is_tasks s) t <> None -> kind_of s t = KWaiting -> ~ In t (is_ready s) ->
+  (forall x, In x ks -> In x (requestable (rules t))) -> Inv rules c (branch_reqs s t ks).
+Proof.
+  induction ks as [|x ks IH]; intros s t HI Hex Hk Hnr Hin; cbn [branch_reqs]; auto.
+  destruct (aget (is_tasks s) t) as [ti|] eqn:Hg; [|contradiction].
+  set (s1 := set_ti s t (ti_new_slot ti)).
+  assert (HI1 : Inv rules c s1) by (apply Inv_set_ti_cosmetic with (ti := ti); auto).
+  assert (Hex1 : aget (is_tasks s1) t <> None) by (unfold s1; autorewrite with iv; rewrite aget_aset_same; discriminate).
+  pose proof (keeps_add_request s1 t x (length (ti_slots ti)) false false) as K.
+  apply IH.
+  - apply Inv_add_request; auto. apply Hin. now left.
+  - destruct K as (_ & _ & K3 & _). auto.
+  - rewrite (keeps_kind _ _ t K). exact Hk.
+  - destruct K as (K1 & _). rewrite K1. exact Hnr.
+  - intros y Hy. apply Hin. now right.
+Qed.
+
+Lemma branch_fire_requestable rules t ti slot v ks : branch_fire rules t ti slot v = Some ks -> forall x, In x ks -> In x (requestable (rules t)).
+Proof.
+  unfold branch_fire, requestable. destruct (r_br (rules t)) as [[[i a] b]|]; [|discriminate].
+  destruct (_ && _); [|discriminate]. intros H x Hx. inversion H. subst ks.
+  apply in_or_app. right. apply in_or_app. right. apply in_or_app. right. apply in_or_app. destruct (is_even _); auto.
+Qed.
+
+Lemma Inv_provide_value rules c s t slot inp v rq fi' : cx_fi c = rq :: fi' -> iq_task rq = Some t -> Inv rules c s ->
+  Inv rules c (provide_value rules s t slot inp v).
+Proof.
+  intros Hfi Ht HI. destruct (waiting_of_request rules c s t rq fi' Hfi Ht HI) as (ti & Hg & Hw & Hk & Hnr).
+  unfold provide_value. cbn zeta. apply (Inv_iemit rules c s (EProvide t slot inp v)) in HI.
+  change (aget (is_tasks (iemit s (EProvide t slot inp v))) t) with (aget (is_tasks s) t). rewrite Hg.
+  destruct (store_slot_fields slot v ti) as (F1 & F2 & F3 & F4).
+  destruct (branch_fire rules t ti slot v) as [ks|] eqn:Ef.
+  - apply Inv_branch_reqs; auto.
+    + apply Inv_set_ti_cosmetic with (ti := ti); auto.
+    + autorewrite with iv. rewrite aget_aset_same. discriminate.
+    + eapply branch_fire_requestable; eauto.
+  - apply Inv_set_ti_cosmetic with (ti := ti); auto.
+Qed.
+
+Lemma Inv_deliver rules c0 fi' s rq : Inv rules (cx_set_fi c0 (rq :: fi')) s -> iq_task rq <> None -> Inv rules (cx_set_fi c0 fi') (deliver rules s rq).
+Proof.
+  intros HI Hnd. unfold deliver. destruct (iq_task rq) as [t|] eqn:Et; [|contradiction]. cbn zeta.
+  apply (Inv_decrement_wait rules (cx_set_fi c0 (rq :: fi')) _ t rq fi'); auto.
+  destruct (iq_order rq); auto. eapply Inv_provide_value; eauto. reflexivity.
+Qed.
+
+Lemma Inv_step_fininreq rules c s : Inv rules c s -> Inv rules c (step_fininreq rules s).
+Proof.
+  intros HI. unfold step_fininreq. destruct (is_fininreq s) as [|rq rest] eqn:Hq; auto.
+  assert (Hnd : iq_task rq <> None). { destruct HI as (_ & _ & HI & _). apply (i_fin_nd rules c s HI). rewrite Hq. now left. }
+  pose proof (Inv_pop_fininreq rules c s rq rest Hq HI) as HI1.
+  pose proof (Inv_deliver rules c (cx_fi c) (upd_fininreq s rest) rq HI1 Hnd) as H. now rewrite cx_set_fi_same in H.
+Qed.
